@@ -275,7 +275,7 @@ def check(case):
     resonant = any(l['kind'] in ('trap', 'laplace') or (l['kind'] == 'rlc' and l['L'] and l['C']) for l in case['loads'])
     # near a resonance of a lumped load the impedance amplifies the 6-digit rounding of L and C without bound;
     # the parameters themselves were compared above
-    if not fails and not resonant and rules.check(case) is None:
+    if not fails and not resonant and rules.check(case) is None and common.junction_ratio_violation(build.ref_topology(case, m)) is None:
         try:
             m.compute()
             m2.compute()
